@@ -20,6 +20,10 @@ RP : every exported behaviour (operations, crash cut as (transaction, frame|mark
      The harness decides the property on the real outcome (recovered coordinator == live coordinator after the last transaction
      whose marker ends at or before the cut; every returned authority reconstructible; <= 1 claim grant per request across the
      crash; gap-free LSNs; retry == retained settlement); differences from the model that keep it are drift.
+BP : bare path - when the coordinator ACCEPTS a directory whose read-only scan is not clean, the harness goes on without the repair (fresh
+     writer epoch, one lawful operation); if that operation returns its authority, the next stop + prescribed recovery must reconstruct
+     it and everything acknowledged before, else fs:bare_recover_accepts_torn_tail:ack_lost|log_unreadable (finding F17).  A refusal is
+     lawful.  Model: AsBuiltBareRecover (default FALSE = repaired law); MC_C17fs_asbuilt_bare.cfg keeps the counterexample (thorough).
 SW : byte sweep - scripted lifecycles cut at EVERY byte offset of the segment (quick: a stride, all record boundaries +-1).
 """
 import concurrent.futures
@@ -33,9 +37,12 @@ P = "fs:"
 RUNS = {"quick": ["MC_C17fs_quick.cfg"], "thorough": ["MC_C17fs_thorough.cfg"]}
 INV_ONLY = {"thorough": ["MC_C17fs_two.cfg"]}
 MUTANTS = ["MC_C17fs_mut_torn.cfg", "MC_C17fs_mut_deep.cfg"]
+ASBUILT = ("MC_C17fs_asbuilt_bare.cfg", "Inv_FsBareRefusesTail")     # finding F17: the counterexample TLC must keep finding
+BARE = "bare_recover_accepts_torn_tail"
 SWEEPS = {"quick": [("life", 24), ("interleaved", 61), ("unknown", 83)],
           "thorough": [("life", 1), ("interleaved", 2), ("unknown", 3)]}
 PROCS = 4
+QUICK_STRIDE = 3
 
 
 def _split(binp, tag, cases, timeout):
@@ -76,7 +83,9 @@ def run_leg(ck, binp, tier, replay=None):
             if r["verdict"] == "tool_error":
                 raise ToolError(f"c17fs harness: {r.get('detail')}")
             if r["verdict"] == "violation":
-                ck.violation(f"{P}{'sweep:' if 'sweep' in c else ''}{r['kind']}", r.get("detail", ""), {"leg": "fs", "cases": [c], "result": r})
+                for kind in (r.get("by_kind") or {r["kind"]: 0}):
+                    ck.violation(f"{P}{'sweep:' if 'sweep' in c else ''}{kind}", (r.get("by_kind", {}).get(kind) or {}).get("detail") or r.get("detail", ""),
+                                 {"leg": "fs", "cases": [c], "result": {k: v for k, v in r.items() if k != "by_kind"}})
         ck.cov["fs"] = {"replayed": len(cases)}
         return
 
@@ -136,18 +145,25 @@ def run_leg(ck, binp, tier, replay=None):
                 spec_mutants[cfg] = res.violation
                 if not res.violation:
                     raise ToolError(f"the model mutant {cfg} satisfies every invariant of ExtActionFs.tla: the properties are vacuous")
+            res = tlc("MC_C17fs", ASBUILT[0], workers=4, timeout=900, tags=("NONE",), out_name=f"c17fs_{ASBUILT[0].replace('.cfg', '')}")
+            spec_mutants[ASBUILT[0]] = res.violation
+            if res.violation != ASBUILT[1]:
+                raise ToolError(f"{ASBUILT[0]} (bare coordinator recovery as built before the repair: a torn partial record is not refused) no longer "
+                                f"violates {ASBUILT[1]} (TLC reported {res.violation}): the as-built counterexample of F17 is lost")
 
         # ---- model behaviours into the real store
         per_cfg = {}
         for cfg, cases, res in model_runs:
-            # the no-repair probe (observation only) on a spread of the torn cuts
-            for i, c in enumerate(cases):
-                if i % 7 == 0:
-                    c["probe_norepair"] = True
+            exported = len(cases)
+            if tier == "quick":
+                # quick replays a seeded third of the exported behaviours (TLC checked all of them); the export order interleaves
+                # scripts, cuts and continuations, and the guards below require every cut class; thorough replays everything
+                cases.sort(key=lambda c: json.dumps(c, sort_keys=True))          # TLC's print order depends on worker scheduling
+                cases = cases[seed() % QUICK_STRIDE::QUICK_STRIDE]
             t0 = time.time()
             results = _split(binp, f"c17fs_{cfg.replace('.cfg', '')}", cases, 7200)
             log(f"[c17fs] {cfg}: {len(cases)} behaviours replayed in {time.time() - t0:.1f}s")
-            per_cfg[cfg] = {"behaviours": len(cases), "states": res.distinct, "tlc_s": round(res.wall, 1), "replay_s": round(time.time() - t0, 1)}
+            per_cfg[cfg] = {"behaviours": len(cases), "exported": exported, "states": res.distinct, "tlc_s": round(res.wall, 1), "replay_s": round(time.time() - t0, 1)}
             roots = set()
             for c, r in zip(cases, results):
                 stats["behaviours"] += 1
@@ -159,9 +175,13 @@ def run_leg(ck, binp, tier, replay=None):
                     key = f"{P}{r['kind']}"
                     seen[key] = seen.get(key, 0) + 1
                     if seen[key] <= 2:
-                        ck.violation(key, f"{cfg}: crash of {cr[1]} {cr[2]} at {cls} (byte {r.get('info', {}).get('cut')}): {r.get('detail')}"[:3000],
-                                     {"leg": "fs", "cfg": cfg, "cases": [c], "result": r})
-                    continue
+                        ci = c["steps"].index(cr) if cr in c["steps"] else 0
+                        pre = [st[1:4] for st in c["steps"][:ci] if st[0] == "op"]
+                        ck.violation(key, f"{cfg}: after {json.dumps(pre)} crash of {cr[1]} {cr[2]} at {cls} (byte {r.get('info', {}).get('cut')}): {r.get('detail')}"[:3000],
+                                     {"leg": "fs", "cfg": cfg, "script": pre + [cr[1:4]], "byte_offset": r.get("info", {}).get("cut"), "cases": [c], "result": r})
+                    if not all(k.startswith(BARE) for k in r.get("all", [r["kind"]])) or "tail" not in r:
+                        continue
+                    stats["bare_path_violations"] = stats.get("bare_path_violations", 0) + 1          # the prescribed path is still accounted below
                 stats["cuts_by_class"][cls] = stats["cuts_by_class"].get(cls, 0) + 1
                 if cr[6] in ("1", "middle", "all_but_one"):
                     stats["torn_cuts"] += 1
@@ -178,9 +198,13 @@ def run_leg(ck, binp, tier, replay=None):
                     stats.setdefault("no_repair_probe", {})[k] = stats.get("no_repair_probe", {}).get(k, 0) + 1
                 roots.add(r.get("root"))
                 if r["verdict"] == "drift":
+                    other = [d for d in r["drift"] if not d.startswith("bare coordinator recovery")]
+                    if not other:
+                        stats["drift_bare_answer_only"] = stats.get("drift_bare_answer_only", 0) + 1          # as-built vs repaired bare answer (F17)
+                        continue
                     stats["drift"] += 1
                     if len(drift_samples) < 4:
-                        drift_samples.append({"cfg": cfg, "steps": c["steps"], "drift": r["drift"][:3]})
+                        drift_samples.append({"cfg": cfg, "steps": c["steps"], "drift": other[:3]})
             stats["roots"] += len(roots)
             if cases:
                 mid = cases[len(cases) // 2]
@@ -193,10 +217,16 @@ def run_leg(ck, binp, tier, replay=None):
         if r["verdict"] == "tool_error":
             raise ToolError(f"c17fs sweep {name}: {r.get('detail')}")
         if r["verdict"] == "violation":
-            key = f"{P}sweep:{r['kind']}"
-            seen[key] = seen.get(key, 0) + 1
-            ck.violation(key, f"byte sweep {name}: {r.get('detail')}"[:3000], {"leg": "fs", "cases": [{"sweep": name, "stride": stride}], "result": r})
-            continue
+            kinds = r.get("by_kind") or {r["kind"]: {"detail": r.get("detail"), "offset": None}}
+            for kind, w in kinds.items():
+                key = f"{P}sweep:{kind}"
+                seen[key] = seen.get(key, 0) + 1
+                only = {"only": [w["offset"]]} if w.get("offset") is not None else {"stride": stride}
+                ck.violation(key, f"byte sweep {name} ({r.get('by_kind_count', {}).get(kind, 1)} cuts): {w.get('detail')}"[:3000],
+                             {"leg": "fs", "script": name, "byte_offset": w.get("offset"), "cases": [dict({"sweep": name}, **only)],
+                              "result": {k: v for k, v in r.items() if k != "by_kind"}})
+            if not all(k.startswith(BARE) for k in kinds) or "sweep" not in r:
+                continue
         s = r["sweep"]
         sw_cov[name] = dict(s, stride=stride, segment_bytes=r["info"]["seg_len"], record_bounds=r["info"]["bounds"], seconds=round(secs, 1))
         sw_offsets += s["offsets"]
@@ -234,12 +264,8 @@ def run_leg(ck, binp, tier, replay=None):
         for v in sw_cov.values():
             for k, n in v.get("norepair", {}).items():
                 nr[k] = nr.get(k, 0) + n
-        ck.notes.append({"fs_observation": "ExternalActionCoordinatorV1::recover over FilesystemWalStore does NOT refuse a tail that ends in a torn (partial) "
-                         "record: FilesystemWalStore::read_snapshot drops the torn-tail flag, so only a complete uncommitted frame yields WalTailNotClean. "
-                         "The property holds on the prescribed path (writable WAL recovery first). A host that skips the repair because the coordinator "
-                         "accepted the directory appends behind the torn bytes: the acknowledged transaction makes the segment unreadable or is lost "
-                         "(classes below; not counted as a violation of C17)",
-                         "accepted_unclean_tails": accepted, "continue_without_repair": nr})
+        ck.notes.append({"fs_observation": "unclean (torn-record) tails the bare ExternalActionCoordinatorV1::recover accepted; decided by the bare path "
+                         f"(keys {P}{BARE}:ack_lost|log_unreadable)", "accepted_unclean_tails": accepted, "bare_path_outcomes": nr})
     if stats["drift"]:
         ck.notes.append({"fs_model_drift": f"{stats['drift']} behaviours where the real store / coordinator deviates from ExtActionFs.tla while the property holds",
                          "samples": drift_samples})
